@@ -81,6 +81,16 @@ def run(chk):
     ss = src.func(GS, "single_sweep")
     cv = [unparse(c.args[1]) for c in ast.walk(ss.node) if isinstance(c, ast.Call) and unparse(c.func) == "cvec2cmat"]
     chk.ob("mask-sibling", "single_sweep: eigenvector unpacked with the mask the solver used", cv == ["qn_mask"], ss.where, cv, ["qn_mask"], line=ss.node.lineno)
+    # tree optimiser: sweep typestate and the two-site effective Hamiltonian it diagonalises
+    from . import tree_rules as TR
+    TR.gs_sweep_typestate(chk, src)
+    TR.heff_networks(chk, src, topologies=("generic", "ternary"), rule="tree-heff-network", only=("hop_expr2",))
+    o2 = src.func(TR.TGS, "optimize_2site")
+    masks = sorted({unparse(n.slice) for n in ast.walk(o2.node) if isinstance(n, ast.Subscript) and unparse(n.value) in ("cguess", "hdiag", "expr(asxp(cstruct))")} |
+                   {unparse(c.args[1]) for c in ast.walk(o2.node) if isinstance(c, ast.Call) and unparse(c.func) == "vec2tensor"})
+    mdef = [unparse(s.value).replace(" ", "") for s in ast.walk(o2.node) if isinstance(s, ast.Assign) and unparse(s.targets[0]) == "qn_mask"]
+    chk.ob("mask-sibling", "tn optimize_2site: guess, diagonal, matvec and eigenvector use the two-site mask of the same node", masks == ["qn_mask"] and mdef == ["ttns.get_qnmask(snode,include_parent=True)"],
+           o2.where, {"masks": masks, "definition": mdef}, {"masks": ["qn_mask"], "definition": "ttns.get_qnmask(snode, include_parent=True)"}, line=o2.node.lineno)
     callees = {n: src.func(GS, n) for n in ("eigh_direct", "eigh_iterative", "get_ham_direct", "get_ham_iterative")}
     callees["hop_expr"] = src.func(K.HOP, "hop_expr")
     n = arg_order_rule(chk, src, "arg-order", [GS, "renormalizer/mps/mp.py", "renormalizer/mps/mps.py"], callees)
@@ -92,8 +102,8 @@ META = {
     "technique": "symbolic interpretation of contraction kernels to tensor-network signatures (union-find over operand legs) compared with a canonical network; sibling agreement",
     "text": "Decides that all effective-Hamiltonian forms used by the chain DMRG code (4 dense, 7 matrix-vector, 4 diagonal specs, every "
             "configuration) are the same canonical network, i.e. the direct and iterative solvers see one operator, for all inputs and not "
-            "only real-symmetric ones. The variational bound and convergence themselves are numerical and are not decided. The tree "
-            "optimiser's environment-refresh and label rules are decided under C12/C11.",
+            "only real-symmetric ones; for the tree optimiser, that the sweep (abstractly run on symbolic trees) reads only fresh environments, solves at the "
+            "gauge centre, optimises every bond and that hop_expr2 is the canonical two-site network. The variational bound and convergence themselves are numerical and are not decided.",
     "note": "Roles are bound by the kernels' parameter positions; letters and variable names are irrelevant. A kernel configuration the "
             "interpreter cannot follow stops the analysis (exit 2).",
     "design_ref": "DESIGN.md 3.2, 4 (C08)",
